@@ -603,7 +603,7 @@ def r10_13(prog):
 _FMT_SPEC = re.compile(r"%(?:\d+\$)?[-+ #0']*(\*|\d+)?(?:\.(\*|\d+))?(hh|h|ll|l|j|z|t|L|q)?([diouxXeEfgGaAcspn%])")
 
 
-def r10_14(prog):
+def r10_14(prog, rid="R10.14", floor=1200, what="the compiler"):
     """Diagnostics and output calls get the arguments their format asks for.  The compiler's own printf-like functions
     (the error/debug handlers behind FATAL/WARNING/DEBUG, OUT, safe_printf, abuf_printf, ...) carry no format attribute,
     so the C compiler does not check them.  For every call of a variadic function whose last fixed argument is a string
@@ -611,7 +611,7 @@ def r10_14(prog):
     arguments equals the number the format consumes, a `%s` gets a character pointer, an integer conversion an
     integer, a floating conversion a double.  A `%s` fed an int, or one argument too few, crashes asn1c on the very path
     that was to print a diagnostic."""
-    r = Rule("R10.14", "every printf-like call of the compiler passes the number and kinds of arguments its format consumes", floor=1200)
+    r = Rule(rid, "every printf-like call of %s passes the number and kinds of arguments its format consumes" % what, floor=floor)
     for f in sorted(prog.funcs.values(), key=lambda f: f.key):
         reach = f.reachable_from([f.entry]) if f.entry is not None else set()
         seen = set()
